@@ -3,6 +3,7 @@ CONSTANTS
   FlagNames = {"a", "b"}
   MaxTok = 2
   LitChars = {39, 120}
+  AllUserSets = TRUE
   Export = TRUE
 INVARIANT TypeOK
 INVARIANT AcyclicReachesExpansion
